@@ -1259,7 +1259,8 @@ merge_from(const InterrogateDatabase &other) {
     TypeIndex other_type_index = (*ti).first;
     const InterrogateType &other_type = (*ti).second;
 
-    if (other_type.has_name()) {
+    // (The same test as above: the types are matched up by true name.)
+    if (other_type.has_true_name()) {
       map<string, TypeIndex>::iterator ni;
       ni = types_by_name.find(other_type.get_true_name());
       if (ni != types_by_name.end()) {
